@@ -174,10 +174,8 @@ Expected(sel, msgs) ==
                  : j \in DOMAIN logs[k].dests} : k \in sel}
 \* a recorded delivery list is right iff it is duplicate free and its elements are exactly the expected ones
 DeliveredOK(got, sel, msgs) ==
-   LET E == Expected(sel, msgs)
-   IN /\ Len(got) = Cardinality(E)
-      /\ \A i \in DOMAIN got : <<got[i][1], got[i][2], got[i][3], got[i][4], got[i][5]>> \in E
-      /\ \A i, j \in DOMAIN got : i # j => got[i] # got[j]
+   LET G == {<<got[i][1], got[i][2], got[i][3], got[i][4], got[i][5]>> : i \in DOMAIN got}
+   IN Cardinality(G) = Len(got) /\ G = Expected(sel, msgs)
 
 \* discard_by_level(single id | name, level) = disc.  Sound: never discards a level some message of which
 \* would pass the log's filters.  Not useless: a level is only kept if no level filter exists or at least
